@@ -9,6 +9,8 @@ ENV = dict(os.environ, GOFLAGS='-mod=mod', GOPROXY='off', GOSUMDB='off', GOTOOLC
 PK = {'date': 'C01 C07 C09 C11 C15 C16 C17 C18', 'roman': 'C02 C10 C16 C17 C18', 'sem': 'C03 C06 C14 C16 C17 C18', 'size': 'C04 C08 C12 C13 C16 C17 C18',
       'uu': 'C05 C16 C17 C18 C19', 'test': 'C20', 'internal': 'C01 C02 C03 C04 C05 C08 C09 C10 C12 C13 C16 C17 C18'}
 
+NODEMO = False
+
 def sh(cmd, cwd=None, timeout=900, env=ENV):
     try:
         p = subprocess.run(cmd, shell=True, cwd=cwd, env=env, stdout=subprocess.PIPE, stderr=subprocess.STDOUT, timeout=timeout, text=True, errors='replace')
@@ -32,16 +34,16 @@ def one(args):
         demo = open(d + '/demo_test.go').read() if os.path.exists(d + '/demo_test.go') else ''
         m = re.search(r'place in: *([A-Za-z0-9_/.-]+)', demo[:400])
         names = '|'.join(re.findall(r'^func ((?:Test|Example)[A-Za-z0-9_]*)', demo, re.M))
-        if m and names and not benign:
+        if m and names and not benign and not NODEMO:
             place = m.group(1).strip('/')
             shutil.copy(d + '/demo_test.go', '%s/%s/zz_demo_seed_test.go' % (repo, place))
             res['demo_without'], _ = sh("go test -vet=off -count=1 -run '^(%s)$' ." % names, cwd='%s/%s' % (repo, place), timeout=400)
         rc, out = sh('git apply %s/patch.diff' % d, cwd=repo)
         if rc: return dict(res, error='patch does not apply: ' + out[-200:])
-        if m and names and not benign:
+        if m and names and not benign and not NODEMO:
             res['demo_with'], _ = sh("go test -vet=off -count=1 -run '^(%s)$' ." % names, cwd='%s/%s' % (repo, place), timeout=400)
             os.remove('%s/%s/zz_demo_seed_test.go' % (repo, place))
-        res['suite_with'], out = sh('go test -vet=off -count=1 ./...', cwd=repo, timeout=600)
+        res['suite_with'], out = (0, '') if NODEMO else sh('go test -vet=off -count=1 ./...', cwd=repo, timeout=600)
         if res['suite_with']: res['suite_out'] = '\n'.join(l for l in out.splitlines() if not l.startswith('ok'))[-400:]
         ids = [prop]
         if benign:
@@ -67,8 +69,10 @@ def one(args):
 def main():
     a = sys.argv[1:]
     j, benign = 4, False
+    global NODEMO
     if a and a[0] == '-j': j = int(a[1]); a = a[2:]
     if a and a[0] == '--benign': benign = True; a = a[1:]
+    if a and a[0] == '--no-demo': NODEMO = True; a = a[1:]   # regression runs of stored (already confirmed) changes
     workers = max(2, 16 // j)
     import queue
     slots = queue.Queue()
@@ -83,7 +87,7 @@ def main():
             if 'error' in r: print('%-12s ERROR %s' % (tag, r['error'])); continue
             conf = ''
             if not benign:
-                ok = r.get('demo_without') == 0 and r.get('demo_with', 0) != 0 and r.get('suite_with') == 0
+                ok = NODEMO or (r.get('demo_without') == 0 and r.get('demo_with', 0) != 0 and r.get('suite_with') == 0)
                 conf = 'CONFIRMED' if ok else 'NOT-CONFIRMED(without=%s with=%s suite=%s)' % (r.get('demo_without'), r.get('demo_with'), r.get('suite_with'))
             else:
                 conf = 'suite=%s' % r.get('suite_with')
